@@ -222,6 +222,50 @@ theorem mixed_chain_kept (t : Typ) (y c1 c2 : Expr) (hy : isConst y = false) :
     onInstr (.binop t "+" (.binop t "-" y c1) c2) = .ok .keep := by
   simp [onInstr, isConst, hy]
 
+/-! ### the matcher of `on_block`, operand position by operand position, and its soundness
+
+`evalE env e` (Proofs.ConstFold) is the run-time value of a model tree under `Spec.IRArith` with
+parameter values `env`; `passTree` (Model.ConstFold) is `on_block` over a whole single-block
+function seen from its returned value.  The harness compares `passTree` with the function the real
+pass leaves behind, read back instruction by instruction — so a matcher that accepts more (or
+fewer) operand positions than the model's is a model/implementation disagreement. -/
+
+/-- **Exactly which shapes are rewritten.**  A chain rewrite happens only for
+    `(y' op c1) op c2` with the SAME operator `op ∈ {+,-}` twice, the inner constant as the RIGHT
+    operand of the inner instruction and the outer constant as the RIGHT operand of the outer one;
+    the new instruction is `y' op cast(c1 + c2)`. -/
+theorem chain_matcher_exact (ins y' : Expr) (t : Typ) (r : Int) (h : onInstr ins = .ok (.rechain y' t r)) :
+    ∃ op t1 c1 c2 va vb, ins = .binop t op (.binop t1 op y' c1) c2 ∧ (op = "+" ∨ op = "-") ∧
+      isConst c1 = true ∧ isConst c2 = true ∧ evalConst c1 = .ok (t, va) ∧ evalConst c2 = .ok (t, vb) ∧
+      t = y'.ty ∧ r = chainConst t va vb :=
+  onInstr_rechain_inv ins y' t r h
+
+/-- **Unmatched operand positions are left alone**: inner constant on the LEFT (`(c - y) - d`,
+    `(c + y) + d`, any operators), for every non-constant `y` — in particular the invalid
+    `(c - y) - d ↦ y - (c+d)` is not performed. -/
+theorem const_left_inner_kept (t t1 : Typ) (op1 op2 : String) (c y d : Expr) (hy : isConst y = false) :
+    onInstr (.binop t op2 (.binop t1 op1 c y) d) = .ok .keep := by
+  simp [onInstr, isConst, hy]
+
+/-- … and outer constant on the LEFT (`d - (y - c)`, `d + (y + c)`): left alone. -/
+theorem const_left_outer_kept (t t1 td : Typ) (op1 op2 : String) (dv : Int) (y c : Expr) (hy : isConst y = false) :
+    onInstr (.binop t op2 (.const td dv) (.binop t1 op1 y c)) = .ok .keep := by
+  simp [onInstr, isConst, hy]
+
+/-- **Every rewrite the model's matcher accepts is sound** (all shapes, all actions, all parameter
+    values): if the instruction with its operand tree has run-time value `v`, the instruction that
+    `on_block` leaves behind has run-time value `v`. -/
+theorem rewrite_sound (env : Nat → Int) (ins : Expr) (act : Action) (v : Int)
+    (ho : onInstr ins = .ok act) (h : evalE env ins = some v) :
+    evalE env (applyAction ins act) = some v :=
+  onInstr_sound env ins act v ho h
+
+/-- **The pass preserves the run-time value of every single-block function**, for all parameter
+    values: nested folds, chains of any length, chains below casts, values used several times. -/
+theorem pass_preserves_value (env : Nat → Int) (e e' : Expr) (v : Int)
+    (hp : passTree e = .ok e') (h : evalE env e = some v) : evalE env e' = some v ∧ e'.ty = e.ty :=
+  passTree_sound env e e' v hp h
+
 /-! ### operations that are undefined for their constant operands are left for run time -/
 
 /-- Whatever the instruction: the exceptions of an undefined operation (`x % 0`, negative shift
@@ -303,6 +347,13 @@ example : (SExpr.binop .i8 .add (.cast .i8 (.const .u16 300)) (.const .i8 100)).
     ∧ (SExpr.binop .i8 .add (.cast .i8 (.const .u16 300)) (.const .i8 100)).eval = some (-112) := by
   refine ⟨by simp [SExpr.WF, SExpr.ty]; decide, by simp [AllFoldable]; decide, by decide +kernel⟩
 example : isConst (.other i8 0) = false ∧ (Expr.other i8 0).ty = tyOf .i8 := by decide
+-- (c - y) - d is left alone; (y - c) - d is rewritten; u8 witness of why the former must not be: 2 ≠ 248
+example : passTree (.binop u8 "-" (.binop u8 "-" (.const u8 5) (.other u8 0)) (.const u8 3))
+    = .ok (.binop u8 "-" (.binop u8 "-" (.const u8 5) (.other u8 0)) (.const u8 3)) := by decide +kernel
+example : passTree (.binop u8 "-" (.binop u8 "-" (.other u8 0) (.const u8 5)) (.const u8 3))
+    = .ok (.binop u8 "-" (.other u8 0) (.const u8 8)) := by decide +kernel
+example : evalE (fun _ => 0) (.binop u8 "-" (.binop u8 "-" (.const u8 5) (.other u8 0)) (.const u8 3)) = some 2
+    ∧ evalE (fun _ => 0) (.binop u8 "-" (.other u8 0) (.const u8 8)) = some 248 := by decide +kernel
 -- operations that are undefined for their constant operands are left for run time (no exception)
 example : onInstr (.binop i8 "%" (.const i8 5) (.const i8 0)) = .ok .keep := by decide +kernel
 example : onInstr (.binop i8 "<<" (.const i8 1) (.const i8 (-1))) = .ok .keep := by decide +kernel
